@@ -647,6 +647,196 @@ fn multi_sub(loc: bool, nlists: u32, pool_len: u32) -> Sub {
     })
 }
 
+/// Location lists whose expressions refer to entries (DW_OP_call_ref / DW_OP_implicit_pointer:
+/// `DebugInfoRef` fix-ups into the list section) in tables of 1..=3 units of mixed versions,
+/// written with `write::Dwarf::write`. Every reference must read back as the `.debug_info`
+/// offset of the intended entry and every list must keep its ranges.
+fn xref_sub() -> Sub {
+    // version tuples of length 1..=3 over {2,3,4,5}
+    let mut tuples: Vec<Vec<u16>> = vec![];
+    for n in 1..=3u32 {
+        for k in 0..4u32.pow(n) {
+            let mut v = vec![];
+            let mut r = k;
+            for _ in 0..n {
+                v.push([2u16, 3, 4, 5][(r % 4) as usize]);
+                r /= 4;
+            }
+            tuples.push(v);
+        }
+    }
+    let nt = tuples.len() as u64;
+    // (fmt64, size, big)
+    let encs: Vec<(bool, u8, bool)> = vec![(false, 4, false), (false, 8, true), (true, 4, true), (true, 8, false)];
+    let ne = encs.len() as u64;
+    // reference operator x target position (own unit before / own unit after / next unit)
+    let len = nt * ne * 2 * 3;
+    Sub::new(
+        "write-locations-entry-references-multi-unit",
+        len,
+        "every tuple of 1..=3 units with versions from {2,3,4,5} (84 tuples) x {32,64-bit} x address size {4,8}; every unit owns one location list [StartEnd(0x1000+u*0x100, +0x10, expr), StartEnd(0x2000, 0x2010, DW_OP_reg0)] where expr is DW_OP_call_ref or DW_OP_implicit_pointer of {an entry added before the referring entry, an entry added after it, an entry of the next unit (cyclically)}; written with write::Dwarf::write (cross-section fix-ups), read back with Dwarf::attr_locations",
+        move |ctx, i| {
+            let mut x = mcx::space::Mix(i);
+            let tgt = x.take(3);
+            let implicit = x.flag();
+            let (fmt64, size, big) = *x.pick(&encs);
+            let versions = tuples[x.take(nt) as usize].clone();
+            let case = format!("units v{:?} {}-bit addr{} {} op={} target={}", versions, if fmt64 { 64 } else { 32 }, size, if big { "BE" } else { "LE" }, if implicit { "implicit_pointer" } else { "call_ref" }, ["own-before", "own-after", "next-unit"][tgt as usize]);
+            if ctx.want_sample() {
+                ctx.sample(case.clone());
+            }
+            ctx.eval(1);
+            let nu = versions.len();
+            let built = guard(|| -> Result<Sections<EndianVec<RunTimeEndian>>, write::Error> {
+                let mut dwarf = write::Dwarf::new();
+                let mut uids = vec![];
+                let mut befores = vec![];
+                let mut afters = vec![];
+                let mut vars = vec![];
+                for (u, &version) in versions.iter().enumerate() {
+                    let enc = Encoding { version, format: if fmt64 { Format::Dwarf64 } else { Format::Dwarf32 }, address_size: size };
+                    let uid = dwarf.units.add(write::Unit::new(enc, write::LineProgram::none()));
+                    let unit = dwarf.units.get_mut(uid);
+                    let root = unit.root();
+                    let before = unit.add(root, gimli::DW_TAG_dwarf_procedure);
+                    unit.get_mut(before).set(gimli::DW_AT_byte_size, AttributeValue::Udata(0x10 + u as u64));
+                    let var = unit.add(root, gimli::DW_TAG_variable);
+                    let after = unit.add(root, gimli::DW_TAG_dwarf_procedure);
+                    unit.get_mut(after).set(gimli::DW_AT_byte_size, AttributeValue::Udata(0x20 + u as u64));
+                    uids.push(uid);
+                    befores.push(before);
+                    afters.push(after);
+                    vars.push(var);
+                }
+                for u in 0..nu {
+                    let (tu, te) = match tgt {
+                        0 => (u, befores[u]),
+                        1 => (u, afters[u]),
+                        _ => ((u + 1) % nu, afters[(u + 1) % nu]),
+                    };
+                    let mut e = write::Expression::new();
+                    let r = write::DebugInfoRef::Entry(uids[tu], te);
+                    if implicit {
+                        e.op_implicit_pointer(r, 3);
+                    } else {
+                        e.op_call_ref(r);
+                    }
+                    let mut plain = write::Expression::new();
+                    plain.op_reg(gimli::Register(0));
+                    let unit = dwarf.units.get_mut(uids[u]);
+                    let base = 0x1000 + u as u64 * 0x100;
+                    let id = unit.locations.add(write::LocationList(vec![
+                        write::Location::StartEnd { begin: Address::Constant(base), end: Address::Constant(base + 0x10), data: e },
+                        write::Location::StartEnd { begin: Address::Constant(0x2000), end: Address::Constant(0x2010), data: plain },
+                    ]));
+                    unit.get_mut(vars[u]).set(gimli::DW_AT_location, AttributeValue::LocationListRef(id));
+                }
+                let mut sections = Sections::new(EndianVec::new(if big { RunTimeEndian::Big } else { RunTimeEndian::Little }));
+                dwarf.write(&mut sections)?;
+                Ok(sections)
+            });
+            let sections = match built {
+                Err(p) => {
+                    ctx.fail_panic("write::Dwarf::write", &p, case);
+                    return;
+                }
+                Ok(Err(e)) => {
+                    ctx.fail("write::Dwarf::write", "entry-references-in-location-lists", &format!("write-error:{:?}", e).replace(' ', "_"), format!("{}: Dwarf::write failed with {:?} although every request is encodable", case, e));
+                    return;
+                }
+                Ok(Ok(s)) => s,
+            };
+            ctx.outcome("xref:written");
+            let en = if big { RunTimeEndian::Big } else { RunTimeEndian::Little };
+            let r = guard(|| -> Result<(), String> {
+                let d: read::Dwarf<R<'_>> = read::Dwarf::load(|id| -> Result<R<'_>, ()> { Ok(EndianSlice::new(sec(&sections, id), en)) }).unwrap();
+                // pass 1: offsets of the marker entries, per unit
+                let mut marks: Vec<(u64, u64)> = vec![]; // (before, after) as .debug_info offsets
+                let mut units = vec![];
+                let mut it = d.units();
+                while let Some(h) = it.next().map_err(|e| format!("units: {}", e))? {
+                    units.push(d.unit(h).map_err(|e| format!("Dwarf::unit: {}", e))?);
+                }
+                if units.len() != nu {
+                    return Err(format!("{} units read back, {} written", units.len(), nu));
+                }
+                for (u, unit) in units.iter().enumerate() {
+                    if unit.encoding().version != versions[u] {
+                        return Err(format!("unit {} reads back with version {}", u, unit.encoding().version));
+                    }
+                    let uoff = unit.header.offset().0 as u64;
+                    let (mut b, mut a) = (None, None);
+                    let mut cur = unit.entries();
+                    while let Some(die) = cur.next_dfs().map_err(|e| e.to_string())? {
+                        if die.tag() == gimli::DW_TAG_dwarf_procedure {
+                            match die.attr_value(gimli::DW_AT_byte_size).and_then(|v| v.udata_value()) {
+                                Some(v) if v == 0x10 + u as u64 => b = Some(uoff + die.offset().0 as u64),
+                                Some(v) if v == 0x20 + u as u64 => a = Some(uoff + die.offset().0 as u64),
+                                other => return Err(format!("marker entry of unit {} carries {:?}", u, other)),
+                            }
+                        }
+                    }
+                    marks.push((b.ok_or("marker 'before' missing")?, a.ok_or("marker 'after' missing")?));
+                }
+                // pass 2: the lists
+                for (u, unit) in units.iter().enumerate() {
+                    let mut cur = unit.entries();
+                    let mut seen = false;
+                    while let Some(die) = cur.next_dfs().map_err(|e| e.to_string())? {
+                        if die.tag() != gimli::DW_TAG_variable {
+                            continue;
+                        }
+                        seen = true;
+                        let val = die.attr_value(gimli::DW_AT_location).ok_or("variable without DW_AT_location")?;
+                        let mut locs = d.attr_locations(unit, val).map_err(|e| format!("attr_locations: {}", e))?.ok_or("DW_AT_location is not a location list")?;
+                        let mut got = vec![];
+                        while let Some(l) = locs.next().map_err(|e| format!("unit {} location list: {}", u, e))? {
+                            got.push(l);
+                        }
+                        let base = 0x1000 + u as u64 * 0x100;
+                        if got.len() != 2 || got[0].range.begin != base || got[0].range.end != base + 0x10 || got[1].range.begin != 0x2000 || got[1].range.end != 0x2010 {
+                            return Err(format!("unit {} list reads back as {:?}", u, got.iter().map(|l| (l.range.begin, l.range.end)).collect::<Vec<_>>()));
+                        }
+                        let want = match tgt {
+                            0 => marks[u].0,
+                            1 => marks[u].1,
+                            _ => marks[(u + 1) % nu].1,
+                        };
+                        let mut ops = got[0].data.clone().operations(unit.encoding());
+                        let first = ops.next().map_err(|e| format!("unit {} expression: {}", u, e))?;
+                        let target = match first {
+                            Some(read::Operation::Call { offset: read::DieReference::DebugInfoRef(o) }) if !implicit => o.0 as u64,
+                            Some(read::Operation::ImplicitPointer { value, byte_offset: 3 }) if implicit => value.0 as u64,
+                            other => return Err(format!("unit {} expression decodes to {:?}", u, other)),
+                        };
+                        if target != want {
+                            return Err(format!("unit {} (version {}): the reference resolves to .debug_info+{:#x}, the intended entry is at .debug_info+{:#x}", u, versions[u], target, want));
+                        }
+                        if ops.next().map_err(|e| e.to_string())?.is_some() {
+                            return Err(format!("unit {} expression has trailing operations", u));
+                        }
+                        if got[1].data.0.slice() != [0x50] {
+                            return Err(format!("unit {} second entry's expression reads {:02x?}", u, got[1].data.0.slice()));
+                        }
+                    }
+                    if !seen {
+                        return Err(format!("unit {}: variable entry missing", u));
+                    }
+                }
+                Ok(())
+            });
+            match r {
+                Err(p) => ctx.fail_panic("read-back", &p, case),
+                Ok(Err(e)) => ctx.fail("write::Dwarf::write", "entry-references-in-location-lists", "reference-or-list-reads-back-differently", format!("{}: {}", case, e)),
+                Ok(Ok(())) => {
+                    ctx.nontriv(1);
+                    ctx.outcome("xref:ok");
+                }
+            }
+        },
+    )
+}
+
 pub fn def(tier: Tier) -> CheckDef {
     let ml = tier.pick(3u32, 4u32);
     let mut subs = vec![single_sub(false, ml), single_sub(true, ml)];
@@ -655,6 +845,7 @@ pub fn def(tier: Tier) -> CheckDef {
         subs.push(multi_sub(loc, 2, 2));
         subs.push(multi_sub(loc, 3, tier.pick(1, 2)));
     }
+    subs.push(xref_sub());
     let mut req: Vec<String> = vec![];
     for k in ["base_address", "offset_pair", "start_end", "start_length"] {
         req.push(format!("kind:range:{}", k));
@@ -675,6 +866,7 @@ pub fn def(tier: Tier) -> CheckDef {
         "rejected:begin-is-base-selection-marker",
         "rejected:open",
         "dedup:duplicates-in-unit",
+        "xref:ok",
     ] {
         req.push(k.into());
     }
@@ -687,6 +879,7 @@ pub fn def(tier: Tier) -> CheckDef {
             "Left open (either an error or a faithful round trip): inverted ranges, any pair kind under a base address of exactly 0, empty ranges and overflowing start/length in v5 (all representable there).".into(),
             "Everything else must be accepted and read back as the same list.".into(),
             "Location descriptions: empty, one opaque byte, and DW_OP_call4 of a unit entry whose read-back operand must equal the offset of that entry as found by the reader.".into(),
+            "Entry references inside location lists (DW_OP_call_ref / DW_OP_implicit_pointer fix-ups into .debug_loc / .debug_loclists) are checked in multi-unit tables of mixed versions: every request there is encodable, so any write error is a violation.".into(),
             "Not covered: Address::Symbol (needs a relocating writer, C18), lists longer than the bound, more than 3 lists per unit.".into(),
         ],
         subs,
